@@ -114,6 +114,20 @@ func (e *Engine) NativeReplay(pkgName, pkgRel string, tapePaths []string, workDi
 			raws = append(raws, raw1)
 			continue
 		}
+		if terr == nil && t.MapOrder && (t.Kind == "violation" || t.Kind == "known") {
+			// the path depends on a map iteration order, which is random natively: repeat until the order is hit
+			var r1 []ReplayOutcome
+			var raw1 string
+			for attempt := 0; attempt < 24; attempt++ {
+				r1, raw1, _ = e.nativeReplayOnce(pkgName, pkgRel, []string{p}, workDir, false, 0)
+				if Confirms(t, r1[0]) {
+					break
+				}
+			}
+			all[i] = r1[0]
+			raws = append(raws, raw1)
+			continue
+		}
 		if terr == nil && t.VKind == "panic" && strings.HasPrefix(t.Label, "DEADLOCK") {
 			// a predicted deadlock hangs the test binary: replayed alone under a short deadline, the crash confirms it
 			r1, raw1, err1 := e.nativeReplayOnce(pkgName, pkgRel, []string{p}, workDir, false, 30)
